@@ -51,7 +51,7 @@ CALLS = {
 BINOPS = {"==": "=?", "<": "<?", "<=": "<=?", "&&": "&&", "||": "||"}
 FLIP = {">": "<", ">=": "<="}
 
-TOK = re.compile(r"\s*(?:(//[^\n]*)|(/\*.*?\*/)|([A-Za-z_][A-Za-z0-9_]*)|(\d[\d_]*)|(\"(?:[^\"\\]|\\.)*\"|::|->|=>|==|!=|<=|>=|&&|\|\||[-+*/!&.,;:(){}\[\]<>=?|]))", re.S)
+TOK = re.compile(r"\s*(?:(//[^\n]*|'[a-z_]\w*(?!'))|(/\*.*?\*/)|([A-Za-z_][A-Za-z0-9_]*)|(\d[\d_]*)|(\"(?:[^\"\\]|\\.)*\"|::|->|=>|==|!=|<=|>=|&&|\|\||[-+*/!&.,;:(){}\[\]<>=?|]))", re.S)
 
 
 class Fail(Exception):
@@ -75,19 +75,24 @@ def tokenize(src):
 
 def find_fn(src, name):
     if "." in name:
-        # Type.fn: the fn inside `impl Type {` (or `impl<..> Type<..> {`)
+        # Type.fn: the fn inside an `impl Type {` / `impl<..> Type<..> {` / `impl<..> Trait for Type<..> {` block
         ty, name = name.split(".", 1)
-        m = re.search(r"\bimpl(?:<[^>]*>)?\s+%s\b[^{]*\{" % re.escape(ty), src)
-        if not m:
-            raise Fail("impl %s not found" % ty)
-        depth, j = 1, m.end()
-        while depth:
-            if src[j] == "{":
-                depth += 1
-            elif src[j] == "}":
-                depth -= 1
-            j += 1
-        src = src[m.end():j]
+        found = None
+        for m in re.finditer(r"\bimpl(?:<[^>]*>)?\s+(?:[\w:]+(?:<[^>]*>)?\s+for\s+)?%s\b[^{]*\{" % re.escape(ty), src):
+            depth, j = 1, m.end()
+            while depth:
+                if src[j] == "{":
+                    depth += 1
+                elif src[j] == "}":
+                    depth -= 1
+                j += 1
+            body = src[m.end():j]
+            if re.search(r"\bfn\s+%s\s*(<[^>]*>)?\s*\(" % re.escape(name), body):
+                found = body
+                break
+        if found is None:
+            raise Fail("impl %s with fn %s not found" % (ty, name))
+        src = found
     m = re.search(r"\bfn\s+%s\s*(<[^>]*>)?\s*\(" % re.escape(name), src)
     if not m:
         raise Fail("fn %s not found" % name)
